@@ -283,6 +283,17 @@ func (w *cacheWorld) remoteInvariant(key string) string {
 	return ""
 }
 
+// safely runs f, turning a panic into an error (a panic inside the in-memory backend must not take the harness down)
+func safely(f func() error) (err error, panicked string) {
+	defer func() {
+		if r := recover(); r != nil {
+			panicked = fmt.Sprint(r)
+			err = fmt.Errorf("panic: %v", r)
+		}
+	}()
+	return f(), ""
+}
+
 func cacheCrashMain(args []string) {
 	o := hx.ParseOpts(args)
 	rep := hx.NewReport("both cache kinds x MemMapFs / OsFs: (1) Store(v1) then a Store(v2) whose backend stops from operation k on (write at the crash point cut short) or fails at operation k only, for every k (thorough) / 12 sampled k (quick), " +
@@ -320,8 +331,17 @@ func cacheCrashMain(args []string) {
 						ks = append(ks, 1+i*total/11)
 					}
 				}
+				var wgc sync.WaitGroup
+				sem := make(chan struct{}, 12)
 				for _, mode := range []string{"stop", "one"} {
 					for _, k := range ks {
+						wgc.Add(1)
+						sem <- struct{}{}
+						go func(mode string, k int64) {
+						defer func() { <-sem; wgc.Done() }()
+						finished := make(chan struct{})
+						go func() {
+						defer close(finished)
 						w := newCacheWorld(backend, "remote")
 						caseTxt := fmt.Sprintf("cachecase %v %s prev=%v mode=%s k=%d/%d", kind, backend, withPrev, mode, k, total)
 						if withPrev {
@@ -332,7 +352,14 @@ func cacheCrashMain(args []string) {
 						}
 						ff := &faultFs{at: k, mode: mode}
 						cB, _ := w.client(kind, ff)
-						serr := cB.Store(ctx, key, filepath.Join(w.base, "src", "v2"))
+						serr, pan := safely(func() error { return cB.Store(ctx, key, filepath.Join(w.base, "src", "v2")) })
+						if pan != "" {
+							pk := "store-panics"
+							if backend == "mem" {
+								pk = "store-panics:in-memory-backend-remove-below-missing-parent"
+							}
+							rep.Fail(hx.Failure{Kind: "impl-violates-property", Key: pk, Case: caseTxt, Expected: "Store returns (an error)", Observed: pan})
+						}
 						rep.Eval(caseTxt, k <= total)
 						// a backend that stops obeying is a process that died: whatever the dying Store "returned" is seen by nobody
 						crashed := mode == "stop" && k <= total
@@ -354,9 +381,12 @@ func cacheCrashMain(args []string) {
 						if kind == sharedcache.CacheMutable && serr != nil {
 							time.Sleep(130 * time.Millisecond) // let the lock go stale
 						}
-						_ = cC.CleanEntry(ctx, key)
+						_, _ = safely(func() error { return cC.CleanEntry(ctx, key) })
 						dest := filepath.Join(w.base, "dest")
-						ferr := cC.Fetch(ctx, key, dest)
+						ferr, fpan := safely(func() error { return cC.Fetch(ctx, key, dest) })
+						if fpan != "" {
+							rep.Fail(hx.Failure{Kind: "impl-violates-property", Key: "fetch-panics:" + backend, Case: caseTxt, Observed: fpan})
+						}
 						if ferr == nil {
 							v := whichVersion(w.readTree(dest))
 							rep.Hist("fetch:" + strings.SplitN(v, ":", 2)[0])
@@ -381,8 +411,20 @@ func cacheCrashMain(args []string) {
 							}
 						}
 						w.cleanup()
+						}()
+						select {
+						case <-finished:
+						case <-time.After(25 * time.Second):
+							hk := "cache-call-does-not-return"
+							if backend == "mem" {
+								hk += ":after-a-panic-inside-the-in-memory-backend"
+							}
+							rep.Fail(hx.Failure{Kind: "impl-violates-property", Key: hk, Case: fmt.Sprintf("cachecase %v %s prev=%v mode=%s k=%d/%d", kind, backend, withPrev, mode, k, total), Expected: "every call returns", Observed: "no answer within 25 s"})
+						}
+						}(mode, k)
 					}
 				}
+				wgc.Wait()
 			}
 		}
 	}
